@@ -102,8 +102,9 @@ class ModelBackend:
         # strain infectious compartment to its mixing category
         self._strain_category_indexers = {}
         #
+        strain_strat = self.model._get_strain_stratification_name()
         for strain in self.model._disease_strains:
-            strain_filter = {"strain": strain} if "strain" in self.model.stratifications else {}
+            strain_filter = {strain_strat: strain} if strain_strat is not None else {}
             strain_infectious_comps = self.model.query_compartments(
                 strain_filter, tags="infectious", as_idx=True
             )
@@ -193,5 +194,6 @@ class ModelBackend:
     ) -> Tuple[str, int]:
         """Return indices for infection frequency lookups"""
         idx = self._get_force_idx(source)
-        strain = dest.strata.get("strain", self.model._DEFAULT_DISEASE_STRAIN)
+        strain_strat = self.model._get_strain_stratification_name()
+        strain = dest.strata.get(strain_strat, self.model._DEFAULT_DISEASE_STRAIN)
         return idx, strain
